@@ -355,6 +355,18 @@ pub fn run(out: &mut Out, tier: &str, seed: u64, prop: &str) {
                         if p != Some(c) || c != ab { out.oracle_fail("C16", "the kind() views of two markers order differently from the markers (or partial_cmp differs from cmp)", input.clone()); }
                     }
                 }
+                {
+                    // the other public wrappers of a marker: `kind()` as a whole and `contents()` are Eq / Ord / Hash-coherent too
+                    let (ka, kb) = (a.tree.kind(), b.tree.kind());
+                    if ka.partial_cmp(&kb) != Some(ka.cmp(&kb)) || (ka.cmp(&kb) == std::cmp::Ordering::Equal) != (ka == kb) || (ka == kb) != (a.tree == b.tree) || ka.cmp(&kb) != kb.cmp(&ka).reverse() {
+                        out.oracle_fail("C16", "MarkerTreeKind: Eq / Ord / PartialOrd disagree with one another or with the markers' equality", input.clone());
+                    }
+                    if let (Some(ca), Some(cb)) = (a.tree.contents(), b.tree.contents()) {
+                        if ca.cmp(&cb) != ab || ca.partial_cmp(&cb) != Some(ab) || (ca == cb) != (a.tree == b.tree) || (ca == cb && hash_of(&ca) != hash_of(&cb)) {
+                            out.oracle_fail("C16", "MarkerTreeContents: Eq / Ord / Hash differ from the marker's", input.clone());
+                        }
+                    }
+                }
                 let (bc, ac) = (b.tree.cmp(&c.tree), a.tree.cmp(&c.tree));
                 if ab != std::cmp::Ordering::Greater && bc != std::cmp::Ordering::Greater && ac == std::cmp::Ordering::Greater { out.oracle_fail("C16", "cmp is not transitive", input.clone()); }
                 if ab != std::cmp::Ordering::Equal { out.nontrivial(format!("{}|{}", a.dump, b.dump)); }
